@@ -237,8 +237,8 @@ fn child(op: usize, nested: bool, quick_stride: u64, seed: u64, out: i32) -> i32
                 unsafe { libc::raise(libc::SIGCHLD) };
             }
             if op == 7 {
-                // occurrence 1: a few records queued; occurrence 2: all five slots outstanding once A holds one
-                for _ in 0..(if occ == 1 { 3 } else { 5 }) {
+                // all five slots outstanding once A holds one of them
+                for _ in 0..5 {
                     crate::sig::queue_self(sig_list[4].0, 5);
                 }
             }
